@@ -1,6 +1,6 @@
 """C61: the cache manager enforces http_access and cachemgr_passwd (end to end through the real squid)."""
 import base64, concurrent.futures, json, os, random, re, threading
-from vlib import std, lab, common
+from vlib import std, lab, common, hbuild, recipes, coq
 
 PID = "C61"
 META = {
@@ -304,6 +304,145 @@ def to_case(s):
                      "absent" if q["auth"] is None else hx(q["auth"])])
 
 
+# ------------------------------------------------------------------ unit level (components linked without the proxy)
+FRESH = ["src/anyp/Uri.cc", "src/base/RegexPattern.cc", "lib/rfc1738.cc", "src/mgr/QueryParams.cc", "src/mgr/IntParam.cc",
+         "src/mgr/StringParam.cc", "src/ipc/TypedMsgHdr.cc"]
+
+
+def impl(sanitize="ubsan"):
+    return hbuild.build("h_mgr", "h_mgr.cc", fresh=FRESH, link=recipes.URL, sanitize=sanitize)
+
+
+def prebuild():
+    impl()
+
+
+def manager_acl():
+    """(pattern, icase) of the built-in `manager` ACL as the tree configures it (src/cf.data.pre; -i sets, +i clears REG_ICASE)"""
+    txt = open(os.path.join(common.REPO, "src", "cf.data.pre"), encoding="latin1").read()
+    blk = [b for b in txt.split("\nNAME:")[1:] if b.split("\n", 1)[0].split() == ["acl"]][0]
+    toks = re.findall(r"^DEFAULT:[ \t]*manager[ \t]+\S+[ \t]+(.*)$", blk, re.M)[0].split()
+    icase, pat = False, None
+    for t in toks:
+        if t == "-i": icase = True
+        elif t == "+i": icase = False
+        else: pat = t
+    return pat, icase
+
+
+def hb(b):
+    return b.hex() if b else "-"
+
+
+PIECES = [b":", b"/", b"//", b"://", b"a", b"http", b"ftp", b"verif.test", b":3128", b"@", b"%", b"%2F", b"%2f", b"%00", b"%zz", b"%4",
+          b"/squid-internal-mgr/", b"/squid-internal-mgr", b"squid-internal-mgr/", b"/SQUID-INTERNAL-MGR/", b"/Squid-internal-mgr/",
+          b"menu", b"?x=1", b"#f", b"\0", b"\n", b" ", b"\xe9", b"u:p", b"/squid-internal-mgr/x", b"%3A", b"%25", b"."]
+QPIECES = [b"&", b"=", b"#", b",", b"x", b"a_b", b"1", b"12", b"2147483647", b"2147483648", b"9223372036854775807",
+           b"9223372036854775808", b"99999999999999999999", b"0x10", b"-1", b"+1", b" ", b"abc", b"1,2", b",1", b"1,", b"%20", b"x=1",
+           b"x=1&y=2", b"x=", b"?", b"/", b"007", b"1a", b"\0", b";"]
+HOSTS = ["verif.test", "VERIF.TEST", "Verif.Test", "verif.test.", "verif.test..", "a", "a-b.example", "127.0.0.1", "X_y.z", "h0st"]
+UPATHS = ["/squid-internal-mgr/menu", "/squid-internal-mgr/", "/squid-internal-mgr/info?x=1", "/squid-internal-mgr/a%2Fb",
+          "/squid-internal-mgr/%zz", "/squid-internal-mgr/%00x", "/SQUID-INTERNAL-MGR/menu", "/squid-internal-mgr", "/", "/x?y#z",
+          "/squid-internal-mgr/a|b\"c<d>", "/squid-internal-mgr/%", "/%2Fsquid-internal-mgr/", "/squid-internal-mgr/\xe9t\xe9",
+          "/squid-internal-mgr/x%25y", "/squid-internal-mgr/[x]{y}^`\\", "/a:b@c/squid-internal-mgr/"]
+
+
+def gen_unit_cases(rng, n):
+    pat, icase = manager_acl()
+    ph, ic = hb(pat.encode("latin1")), "1" if icase else "0"
+    out = []
+    for k in range(n):
+        r = k % 6
+        if r == 0:
+            k0 = rng.random()
+            if k0 < 0.35:
+                s = rng.choice([b"http", b"ftp", b"a", b"h+t.p-1", b"\n", b"/"]) + b"://" + \
+                    rng.choice([b"verif.test:3128", b"verif.test", b"h", b"a:b@h", b"u@h:1", b"\xe9", b":", b"?#"]) + \
+                    rng.choice([b"/squid-internal-mgr/", b"/squid-internal-mgr/menu?x#y", b"/squid-internal-mgr/\0", b"/squid-internal-mgr//"])
+            elif k0 < 0.7:
+                s = rng.choice([b"http", b"ftp", b"a", b"h+t.p-1", b"", b"x:y", b"\n"]) + rng.choice([b"://"] * 6 + [b":/", b"//", b":///"]) + \
+                    rng.choice([b"verif.test:3128", b"verif.test", b"a/b@verif.test", b"", b"h", b"a:b@h", b"h\0", b"u@h:1", b"\xe9"]) + \
+                    rng.choice([b"/squid-internal-mgr/"] * 3 + [b"/squid-internal-mgr/menu?x#y", b"/squid-internal-mgr", b"/SQUID-internal-mgr/",
+                                b"/x/squid-internal-mgr/", b"squid-internal-mgr/", b"/squid-internal-mgr/\0", b"/squid-internal-mgr//"])
+            else:
+                s = b"".join(rng.choice(PIECES) for _ in range(rng.randrange(0, 8)))
+            out.append("mgr.u.regex %s %s %s" % (ph, ic, hb(s)))
+        elif r == 1:
+            s = b"".join(rng.choice(PIECES + [b"%41", b"%7e", b"%FF", b"%0a", b"%g1", b"%1g", b"%%", b"%"]) for _ in range(rng.randrange(0, 8)))
+            out.append("mgr.u.decode " + hb(s))
+        elif r == 2:
+            s = b"".join(rng.choice([b"%", b"%%", b"%2F", b"%2f", b"%00", b"%0", b"%zz", b"%4", b"%41", b"%fF", b"a", b"/", b"%25", b"%g0",
+                                     b"%0g", b"\xe9", b":", b"@"]) for _ in range(rng.randrange(0, 8)))
+            out.append("mgr.u.unescape " + hb(s.replace(b"\0", b"")))
+        elif r == 3:
+            if rng.random() < 0.5:
+                s = b"&".join(rng.choice([b"x", b"a_b", b"A1", b""]) + b"=" + rng.choice(QPIECES) for _ in range(rng.randrange(0, 4)))
+                s += rng.choice([b"", b"", b"#f", b"&", b"#", b" "])
+            else:
+                s = b"".join(rng.choice(QPIECES) for _ in range(rng.randrange(0, 7)))
+            out.append("mgr.u.query " + hb(s))
+        else:
+            sc = rng.choice(["0", "0", "1", "1", "2"])
+            login = rng.choice([""] * 3 + LOGINS + ["a%2Fb%2Fc", "%41", "a%7Eb", "a!b", "a%20b", "a|b"])
+            host = rng.choice(HOSTS)
+            port = rng.choice([3128, 80, 21, 443, 1, 65535, 8080])
+            path = rng.choice(UPATHS)
+            args = "%s %s %s %d %s" % (sc, hx(login), hx(host), port, hx(path))
+            out.append(("mgr.u.uri " + args) if r == 4 else ("mgr.u.acl %s %s %s" % (ph, ic, args)))
+    return out
+
+
+def unit_oracle(c, o):
+    """independent references: Python's re for the ERE (same syntax for this pattern), RFC 3986 percent-decoding"""
+    w = c.split()
+    if o.startswith("EXC") or o.startswith("ERR") or o == "bad":
+        return ("oracle:unit-exception", "the real function failed: " + o)
+    unhex = lambda h: b"" if h == "-" else bytes.fromhex(h)
+    if w[0] == "mgr.u.regex":
+        want = bool(re.match(unhex(w[1]), unhex(w[3]).split(b"\0")[0], re.S | (re.I if w[2] == "1" else 0)))
+        if (o == "1") != want:
+            return ("oracle:unit-regex", "regexec says %s, the reference matcher %s" % (o, want))
+    elif w[0] == "mgr.u.decode":
+        s = unhex(w[1])
+        ok = all(re.fullmatch(rb"[0-9a-fA-F]{2}", s[i + 1:i + 3]) for i in range(len(s)) if s[i:i + 1] == b"%")
+        want = re.sub(rb"%([0-9a-fA-F]{2})", lambda m: bytes([int(m.group(1), 16)]), s) if ok else s
+        if unhex(o) != want:
+            return ("oracle:unit-decode", "DecodeOrDupe gave %r, RFC 3986 decoding %r" % (unhex(o), want))
+    return None
+
+
+def unit_kind(c, o):
+    e = c.split()[0]
+    return e + ":" + o.split(" ")[0] if e in ("mgr.u.regex", "mgr.u.acl", "mgr.u.query") else e
+
+
+def unit_stage(res, tier):
+    try:
+        exe = impl()
+    except hbuild.BuildError as ex:
+        res.fail("build", "C61: unit harness no longer builds against /repo's working tree: %s" % str(ex)[-1200:],
+                 {"no_failing_input_found": True, "broken": "harness build h_mgr", "detail": str(ex)[-3000:]})
+        return
+    runner = coq.build_runner("mgr")
+    rng = random.Random(common.seed() * 1000003 + 6161)
+    cases = std.load_corpus(PID) + gen_unit_cases(rng, 6000 if tier == "quick" else 150000)
+    implo, modelo, dis = std.corr_stage(res, cases, exe, runner, kind_fn=unit_kind)
+    found = 0
+    for c, o in zip(cases, implo):
+        v = unit_oracle(c, o)
+        if v and res.fail(v[0], "C61 (unit) on input `%s`: implementation answered `%s`: %s" % (c[:400], o[:300], v[1]),
+                          {"case": c, "impl": o, "oracle": v[1], "signature": v[0]}):
+            found += 1
+    if dis and not found:
+        k, c, a, b = dis[0]
+        res.fail("corr:unit", "model and implementation disagree on %d unit cases (first: `%s` impl=`%s` model=`%s`); the reference "
+                 "oracle holds on every implementation answer" % (len(dis), c[:300], a[:150], b[:150]),
+                 {"no_failing_input_found": True, "broken": "correspondence MgrModel components vs real functions",
+                  "case": c, "impl": a, "model": b, "disagreements": len(dis)})
+    res.extra["unit_cases"] = len(cases)
+    res.extra["unit_disagreements"] = len(dis)
+
+
 # ------------------------------------------------------------------ oracle (the property, on what squid did)
 def rules_allow(rules, is_mgr, is_local=True):
     """squid.conf semantics of http_access: first line all of whose ACLs match decides; else the opposite of the last
@@ -384,6 +523,7 @@ def run(res, tier):
                 "it must be refused) / unknown / empty / index, with ?query and #fragment shapes hitting every QueryParams "
                 "branch (int limits +-1); Authorization absent or Basic/other scheme x right/wrong/empty/NUL-suffixed/"
                 "colon-less password x damaged base64; non-trivial = answered report/authreq/denied/notfound")
+    unit_stage(res, tier)
     try:
         std.run_lab(res, PID, tier, area="mgr", gens=["mgr"], gen_scenarios=gen_scenarios, run_impl=run_impl,
                     to_case=to_case, oracle=oracle, corr_name="MgrModel (handle) vs the running squid",
@@ -392,3 +532,33 @@ def run(res, tier):
                     nontrivial_fn=lambda s, o: o.split(" ")[0] in ("report", "authreq", "denied", "notfound"))
     finally:
         _state.clear()
+
+
+def replay(d):
+    """./verif replay <file>: run the recorded scenario (or unit case) again and print what squid / the model answer"""
+    rp = d.get("replay", {})
+    if "case" in rp:
+        exe, runner = impl(), coq.build_runner("mgr")
+        from vlib import corr
+        print("case :", rp["case"])
+        print("impl :", corr.run_lines(exe, [rp["case"]])[0])
+        print("model:", corr.run_lines(runner, [rp["case"]])[0])
+        return 0
+    if "scenario" not in rp:
+        print(json.dumps(d, indent=1))
+        return 0
+    s = rp["scenario"]
+    try:
+        with lab.Lab(PID) as L:
+            L.build()
+            obs = run_impl(L, [s])[0]
+            from vlib import corr
+            model = corr.run_lines(coq.build_runner("mgr"), [to_case(s)])[0]
+    finally:
+        _state.clear()
+    print("scenario:", json.dumps(s))
+    print("squid   :", obs)
+    print("model   :", model)
+    v = oracle(s, obs)
+    print("oracle  :", v if v else "property holds on this answer")
+    return 1 if v else 0
